@@ -618,9 +618,7 @@ func init() {
 			if fn == nil || app == nil || appDecl == nil || fd.Type.Params == nil || len(fd.Type.Params.List) == 0 {
 				return []Obligation{anchorMissing(rid, "libjson.loadNumber / appendJSONFloat")}
 			}
-			u := FuncUnit{fn, fd, pkg}
-			info := pkg.TypesInfo
-			textObj := info.Defs[fd.Type.Params.List[0].Names[0]]
+			textObj0 := pkg.TypesInfo.Defs[fd.Type.Params.List[0].Names[0]]
 			// longest plain-digit text: cutoff `abs >= C` in appendJSONFloat
 			maxLen := -1
 			ast.Inspect(appDecl.Body, func(n ast.Node) bool {
@@ -645,155 +643,209 @@ func init() {
 				}
 				return true
 			})
-			// error object of strconv.ParseFloat(text, ..)
-			var ferr types.Object
-			ast.Inspect(fd.Body, func(n ast.Node) bool {
-				as, ok := n.(*ast.AssignStmt)
-				if !ok || len(as.Rhs) != 1 || len(as.Lhs) != 2 {
+			// analyse judges one function; when the comparison and the refusal live in a private helper that
+			// loadNumber hands the literal to (`return loadOversizeInteger(text)`), the helper is judged with
+			// its own parameter standing for the literal
+			var analyse func(u FuncUnit, textObj types.Object, depth int) []Obligation
+			analyse = func(u FuncUnit, textObj types.Object, depth int) []Obligation {
+				fd := u.Decl
+				info := u.Pkg.TypesInfo
+				forwarded := map[*types.Func]types.Object{}
+				if depth < 2 {
+					ast.Inspect(fd.Body, func(n ast.Node) bool {
+						rs, ok := n.(*ast.ReturnStmt)
+						if !ok || len(rs.Results) != 1 {
+							return true
+						}
+						ce, ok := ast.Unparen(rs.Results[0]).(*ast.CallExpr)
+						if !ok {
+							return true
+						}
+						h := originOf(Callee(info, ce))
+						if h == nil || h.Exported() || h.Pkg() != u.Obj.Pkg() || c.declOf[h] == nil {
+							return true
+						}
+						hs := h.Type().(*types.Signature)
+						for i, a := range ce.Args {
+							if identObj(info, a) == textObj && i < hs.Params().Len() {
+								forwarded[h] = hs.Params().At(i)
+							}
+						}
+						return true
+					})
+				}
+				// error object of strconv.ParseFloat(text, ..)
+				var ferr types.Object
+				ast.Inspect(fd.Body, func(n ast.Node) bool {
+					as, ok := n.(*ast.AssignStmt)
+					if !ok || len(as.Rhs) != 1 || len(as.Lhs) != 2 {
+						return true
+					}
+					ce, ok := ast.Unparen(as.Rhs[0]).(*ast.CallExpr)
+					if ok && stdFuncCalled(info, ce, "strconv", "ParseFloat") && len(ce.Args) > 0 && identObj(info, ce.Args[0]) == textObj {
+						ferr = identObj(info, as.Lhs[1])
+					}
 					return true
-				}
-				ce, ok := ast.Unparen(as.Rhs[0]).(*ast.CallExpr)
-				if ok && stdFuncCalled(info, ce, "strconv", "ParseFloat") && len(ce.Args) > 0 && identObj(info, ce.Args[0]) == textObj {
-					ferr = identObj(info, as.Lhs[1])
-				}
-				return true
-			})
-			isCanonCmp := func(e ast.Expr) bool {
-				be, ok := ast.Unparen(e).(*ast.BinaryExpr)
-				if !ok || be.Op != token.EQL && be.Op != token.NEQ {
-					return false
-				}
-				side := func(a, b ast.Expr) bool {
-					if identObj(info, b) != textObj {
+				})
+				isCanonCmp := func(e ast.Expr) bool {
+					be, ok := ast.Unparen(e).(*ast.BinaryExpr)
+					if !ok || be.Op != token.EQL && be.Op != token.NEQ {
 						return false
 					}
-					found := false
-					for _, ce := range callsIn(a, false) {
-						if originOf(Callee(info, ce)) == app {
-							found = true
+					side := func(a, b ast.Expr) bool {
+						if identObj(info, b) != textObj {
+							return false
+						}
+						found := false
+						for _, ce := range callsIn(a, false) {
+							if originOf(Callee(info, ce)) == app {
+								found = true
+							}
+						}
+						return found
+					}
+					return side(be.X, be.Y) || side(be.Y, be.X)
+				}
+				isLenText := func(e ast.Expr) bool {
+					ce, ok := ast.Unparen(e).(*ast.CallExpr)
+					if !ok || len(ce.Args) != 1 {
+						return false
+					}
+					id, ok := ast.Unparen(ce.Fun).(*ast.Ident)
+					return ok && id.Name == "len" && identObj(info, ce.Args[0]) == textObj
+				}
+				cls := func(e ast.Expr) (string, bool) {
+					e = ast.Unparen(e)
+					if isCanonCmp(e) {
+						return "canon", e.(*ast.BinaryExpr).Op == token.NEQ
+					}
+					be, ok := e.(*ast.BinaryExpr)
+					if !ok {
+						return "", false
+					}
+					if ferr != nil {
+						if isT, nonNil := isNilTest(info, e, ferr); isT {
+							return "ferr", !nonNil // atom "ferr" = ferr != nil
 						}
 					}
-					return found
-				}
-				return side(be.X, be.Y) || side(be.Y, be.X)
-			}
-			isLenText := func(e ast.Expr) bool {
-				ce, ok := ast.Unparen(e).(*ast.CallExpr)
-				if !ok || len(ce.Args) != 1 {
-					return false
-				}
-				id, ok := ast.Unparen(ce.Fun).(*ast.Ident)
-				return ok && id.Name == "len" && identObj(info, ce.Args[0]) == textObj
-			}
-			cls := func(e ast.Expr) (string, bool) {
-				e = ast.Unparen(e)
-				if isCanonCmp(e) {
-					return "canon", e.(*ast.BinaryExpr).Op == token.NEQ
-				}
-				be, ok := e.(*ast.BinaryExpr)
-				if !ok {
-					return "", false
-				}
-				if ferr != nil {
-					if isT, nonNil := isNilTest(info, e, ferr); isT {
-						return "ferr", !nonNil // atom "ferr" = ferr != nil
-					}
-				}
-				// len(text) OP K
-				var k int
-				op := be.Op
-				switch {
-				case isLenText(be.X):
-					v, ok := intConst(info, be.Y)
-					if !ok {
+					// len(text) OP K
+					var k int
+					op := be.Op
+					switch {
+					case isLenText(be.X):
+						v, ok := intConst(info, be.Y)
+						if !ok {
+							return "", false
+						}
+						k = v
+					case isLenText(be.Y):
+						v, ok := intConst(info, be.X)
+						if !ok {
+							return "", false
+						}
+						k = v
+						switch op {
+						case token.LSS:
+							op = token.GTR
+						case token.LEQ:
+							op = token.GEQ
+						case token.GTR:
+							op = token.LSS
+						case token.GEQ:
+							op = token.LEQ
+						}
+					default:
 						return "", false
 					}
-					k = v
-				case isLenText(be.Y):
-					v, ok := intConst(info, be.X)
-					if !ok {
+					if maxLen < 0 {
 						return "", false
 					}
-					k = v
+					// atom "long" = len(text) > maxLen is implied
 					switch op {
+					case token.GTR: // len > k
+						if k >= maxLen {
+							return "long", false
+						}
+					case token.GEQ: // len >= k
+						if k-1 >= maxLen {
+							return "long", false
+						}
+					case token.LEQ: // !(len <= k) = len > k
+						if k >= maxLen {
+							return "long", true
+						}
 					case token.LSS:
-						op = token.GTR
-					case token.LEQ:
-						op = token.GEQ
-					case token.GTR:
-						op = token.LSS
-					case token.GEQ:
-						op = token.LEQ
+						if k-1 >= maxLen {
+							return "long", true
+						}
 					}
-				default:
 					return "", false
 				}
-				if maxLen < 0 {
-					return "", false
+				fc := c.cfgOf(u, nil)
+				cut := fc.edgesEntailing(cls, func(v map[string]bool) bool {
+					return v["$has:canon"] && !v["canon"] || v["$has:ferr"] && v["ferr"] || v["$has:long"] && v["long"]
+				})
+				lispInt := c.LookupPkgFunc("lisp.Int")
+				lispFloat := c.LookupPkgFunc("lisp.Float")
+				loadFloat := c.LookupPkgFunc(jsonPkg + ".loadFloat")
+				var obs []Obligation
+				ord := &ordinal{}
+				sawCanon := false
+				var viaHelper []Obligation
+				for h, po := range forwarded {
+					hd := c.declOf[h]
+					mentions := false
+					for _, ce := range callsIn(hd.Body, false) {
+						if originOf(Callee(c.pkgOf[hd].TypesInfo, ce)) == app {
+							mentions = true
+						}
+					}
+					if mentions {
+						viaHelper = append(viaHelper, analyse(FuncUnit{h, hd, c.pkgOf[hd]}, po, depth+1)...)
+					}
 				}
-				// atom "long" = len(text) > maxLen is implied
-				switch op {
-				case token.GTR: // len > k
-					if k >= maxLen {
-						return "long", false
+				ast.Inspect(fd.Body, func(n ast.Node) bool {
+					if e, ok := n.(ast.Expr); ok && isCanonCmp(e) {
+						sawCanon = true
 					}
-				case token.GEQ: // len >= k
-					if k-1 >= maxLen {
-						return "long", false
-					}
-				case token.LEQ: // !(len <= k) = len > k
-					if k >= maxLen {
-						return "long", true
-					}
-				case token.LSS:
-					if k-1 >= maxLen {
-						return "long", true
-					}
-				}
-				return "", false
-			}
-			fc := c.cfgOf(u, nil)
-			cut := fc.edgesEntailing(cls, func(v map[string]bool) bool {
-				return v["$has:canon"] && !v["canon"] || v["$has:ferr"] && v["ferr"] || v["$has:long"] && v["long"]
-			})
-			lispInt := c.LookupPkgFunc("lisp.Int")
-			lispFloat := c.LookupPkgFunc("lisp.Float")
-			loadFloat := c.LookupPkgFunc(jsonPkg + ".loadFloat")
-			var obs []Obligation
-			ord := &ordinal{}
-			sawCanon := false
-			ast.Inspect(fd.Body, func(n ast.Node) bool {
-				if e, ok := n.(ast.Expr); ok && isCanonCmp(e) {
+					return true
+				})
+				if !sawCanon && len(viaHelper) > 0 {
+					// this function only forwards: its own refusals (if any) are still judged below, with the
+					// forwarding returns accepted
 					sawCanon = true
 				}
-				return true
-			})
-			if !sawCanon {
-				return []Obligation{mkOb(c, rid, u, "canonical-float test", fd, Violated, "loadNumber no longer compares the literal with appendJSONFloat's rendering of the float it parses to: either every oversize integer is refused (dump's own 1e19 cannot be loaded) or every one is silently rounded", true)}
-			}
-			for _, b := range fc.G.Blocks {
-				if !fc.Live(b) {
-					continue
+				if !sawCanon {
+					return []Obligation{mkOb(c, rid, u, "canonical-float test", fd, Violated, "loadNumber no longer compares the literal with appendJSONFloat's rendering of the float it parses to: either every oversize integer is refused (dump's own 1e19 cannot be loaded) or every one is silently rounded", true)}
 				}
-				for _, n := range b.Nodes {
-					rs, ok := n.(*ast.ReturnStmt)
-					if !ok || len(rs.Results) != 1 {
+				for _, b := range fc.G.Blocks {
+					if !fc.Live(b) {
 						continue
 					}
-					if ce, ok := ast.Unparen(rs.Results[0]).(*ast.CallExpr); ok {
-						if f := originOf(Callee(info, ce)); f != nil && (f == lispInt || f == lispFloat || f == loadFloat) {
+					for _, n := range b.Nodes {
+						rs, ok := n.(*ast.ReturnStmt)
+						if !ok || len(rs.Results) != 1 {
 							continue
 						}
-					}
-					construct := ord.next("refusal return")
-					if fc.reachableAvoiding(b, cut) {
-						obs = append(obs, mkOb(c, rid, u, construct, rs, Violated, "a path reaches this refusal without the literal having failed the canonical-float comparison: some integer literal that dump writes for a float (plain digits up to 1e21, with or without a sign) is refused with json:integer-range-error, so the package cannot read its own output", true))
-					} else {
-						obs = append(obs, mkOb(c, rid, u, construct, rs, Proved, fmt.Sprintf("reached only over the failed canonical test, a ParseFloat error, or len(text) > %d", maxLen), true))
+						if ce, ok := ast.Unparen(rs.Results[0]).(*ast.CallExpr); ok {
+							if f := originOf(Callee(info, ce)); f != nil && (f == lispInt || f == lispFloat || f == loadFloat) {
+								continue
+							}
+							if f := originOf(Callee(info, ce)); f != nil && forwarded[f] != nil && len(viaHelper) > 0 {
+								continue
+							}
+						}
+						construct := ord.next("refusal return")
+						if fc.reachableAvoiding(b, cut) {
+							obs = append(obs, mkOb(c, rid, u, construct, rs, Violated, "a path reaches this refusal without the literal having failed the canonical-float comparison: some integer literal that dump writes for a float (plain digits up to 1e21, with or without a sign) is refused with json:integer-range-error, so the package cannot read its own output", true))
+						} else {
+							obs = append(obs, mkOb(c, rid, u, construct, rs, Proved, fmt.Sprintf("reached only over the failed canonical test, a ParseFloat error, or len(text) > %d", maxLen), true))
+						}
 					}
 				}
+				return append(obs, viaHelper...)
 			}
-			return obs
+			return analyse(FuncUnit{fn, fd, pkg}, textObj0, 0)
 		}})
 }
 
